@@ -458,8 +458,11 @@ def runLive06 (kv : List (String × String)) : IO Res := do
     -- the composed model of fill_thread_stack (Model/Gather.lean; Theorems/EndToEnd.lean) against the record
     let gprincipal := lc.cfg.principal.bind (fun addr => (findMappingNoBias ms addr).map (fun m => (m.sysStart, m.sysEnd)))
     let gip := if crashThread then greg lc.cfg.gregs REG_RIP else exp.rip
-    match gatherStack ⟨ms, 4096, snapRead lc.mem⟩ ⟨lc.cfg.limit, lc.cfg.sanitize, lc.cfg.principal.isSome, gprincipal⟩
-        i n currPos crashThread sp gip with
+    let _ := gip
+    let gcrash : Option CrashIn := if lc.cfg.crash.isSome then some ⟨greg lc.cfg.gregs REG_RSP, greg lc.cfg.gregs REG_RIP, []⟩ else none
+    let gthread := gatherThread ⟨ms, 4096, snapRead lc.mem⟩ ⟨lc.cfg.limit, lc.cfg.sanitize, lc.cfg.principal.isSome, gprincipal⟩
+        gcrash lc.cfg.blamed i n currPos ⟨t.tid, exp.rsp, exp.rip, []⟩
+    match (match gthread with | .ok d => Outcome.ok d.stack | .err e => .err e | .panic w => .panic w | .fuelOut => .fuelOut) with
     | .ok none =>
       if t.stackSize != 0 then
         return .mismatch s!"thread #{i} ({t.tid}) sp {sp}: a stack [{t.stackStart},+{t.stackSize}) was captured where the composed model records none" tags
